@@ -13,9 +13,11 @@ import (
 	"testing"
 	"time"
 
+	"github.com/gethiox/HIDI/internal/pkg/input"
 	"github.com/gethiox/HIDI/internal/pkg/midi"
 	"github.com/gethiox/HIDI/internal/pkg/midi/device/config"
 	"github.com/gethiox/HIDI/internal/pkg/utils"
+	"github.com/holoplot/go-evdev"
 	"pgregory.net/rapid"
 )
 
@@ -466,4 +468,132 @@ func (c C16Case) Sample() interface{} {
 		devs = append(devs, fmt.Sprintf("device %d: stream ends %q (delay %d): %s", i, c.Phase[i], c.Delay[i], ledStepsSummary(h)))
 	}
 	return map[string]interface{}{"config": descSummary(c.D), "leds": len(c.LEDs), "devices": devs, "midi-in messages cycling": len(c.Midi)}
+}
+
+// ---- C16, stalled OpenRGB server: the server stops reading in the middle of the LED traffic ----
+//
+// Runs in a private network namespace with 4 KB TCP buffers (driver wrap "mountnetns"), so that a peer that stops
+// reading blocks the LED goroutine's next writes within a second (with default buffers it takes minutes). The device
+// keeps getting key events for a while, then its event stream ends: ProcessEvents must return promptly and nothing of
+// the device package may stay behind - whatever the LED side is blocked in.
+type C16StallCase struct {
+	D          *Desc     `json:"desc"`
+	LEDs       []string  `json:"leds"`
+	Hist       []LedStep `json:"stall_hist"`
+	StallAfter int       `json:"stall_after"` // frames the server takes before it hangs
+	KeepMs     int       `json:"keep_ms"`     // how long key events keep coming after the server hung
+}
+
+func checkC16Stall(c C16StallCase) (nontrivial bool, v *Violation) {
+	if c.StallAfter == 0 { // (corpus cases of the other C16 part land here as an empty case)
+		return false, nil
+	}
+	if os.Getenv("VERIF_SMALL_TCP") == "" {
+		return false, violation("C16", "harness", "", "this part needs the private network namespace of the driver (wrap mountnetns)")
+	}
+	if err := BuildHidrawFixture(os.Getenv("VERIF_HIDRAW_FIXTURE"), map[int]string{0: "event5"}); err != nil {
+		return false, violation("C16", "harness", "", "fixture: %v", err)
+	}
+	// 40 LEDs: the controller description still fits one TCP segment with the small buffers (the client library reads it
+	// with a single Read), a frame is ~180 bytes and the buffers are full within a second
+	leds := append([]string{}, c.LEDs...)
+	if len(leds) > 40 {
+		leds = leds[:40]
+	}
+	for i := 0; len(leds) < 40; i++ {
+		leds = append(leds, fmt.Sprintf("Underglow %d", i))
+	}
+	srv, err := NewOrgbServer([]OrgbController{{Name: "Generic Keyboard", Type: 5, Location: "HID: /dev/hidraw0", LEDs: leds}})
+	if err != nil {
+		return false, violation("C16", "harness", "", "fake OpenRGB server: %v", err)
+	}
+	srv.StallAfter = c.StallAfter
+	defer srv.Close()
+	cfg, _, pv := parseDesc("C16", c.D)
+	if pv != nil {
+		return false, pv
+	}
+	curRun.Inflight(c)
+	defer curRun.InflightDone()
+	ld := startLedDevice(config.DeviceConfig{ConfigFile: "verif.toml", ConfigType: "user", Config: cfg}, c.D, "event5", 0, srv.Port, make(chan midi.Event))
+	select {
+	case <-srv.Stalled():
+	case p := <-ld.done:
+		return true, violation("C16", "panic", "", "device ended unexpectedly: %s", p)
+	case <-time.After(15 * time.Second):
+		close(ld.in)
+		return false, violation("C16", "harness", "no-frames", "the LED loop did not send %d frames within 15 s", c.StallAfter)
+	}
+	// key events keep coming; an event the device does not take within 2 s ends this phase (the verdict is about the end)
+	deadline := time.Now().Add(time.Duration(c.KeepMs) * time.Millisecond)
+	frozen := false
+feed:
+	for time.Now().Before(deadline) && len(c.Hist) > 0 {
+		for _, s := range c.Hist {
+			if s.T != "key" {
+				continue
+			}
+			ev := &input.InputEvent{Source: handlerFor(&ld.inDev, ""), Event: evdev.InputEvent{Type: evdev.EV_KEY, Code: evdev.EvCode(s.Code), Value: s.Val}}
+			select {
+			case ld.in <- ev:
+			case <-time.After(2 * time.Second):
+				frozen = true
+				break feed
+			}
+			time.Sleep(20 * time.Millisecond)
+			if !time.Now().Before(deadline) {
+				break feed
+			}
+		}
+	}
+	classifyIf(frozen, "device stopped taking key events while the server hung")
+	t0 := time.Now()
+	close(ld.in)
+	select {
+	case p := <-ld.done:
+		if p != "" {
+			return true, violation("C16", "panic", "", "device panicked: %s", p)
+		}
+	case <-time.After(10 * time.Second):
+		return true, violation("C16", "no-prompt-termination", "server-stalled", "the OpenRGB server stopped reading after %d frames (connection open); ProcessEvents had not returned 10 s after the device's event stream ended (key events still taken before that: %v)\n%s",
+			c.StallAfter, !frozen, firstLines(allStacks(), 120))
+	}
+	if d := time.Since(t0); d > 3*time.Second {
+		return true, violation("C16", "no-prompt-termination", "server-stalled", "the OpenRGB server stopped reading after %d frames; ProcessEvents needed %v to return after the event stream ended", c.StallAfter, d)
+	}
+	if frozen {
+		return true, violation("C16", "no-prompt-termination", "events-not-taken", "while the OpenRGB server hung (after %d frames) the device did not take a key event for 2 s: its event processing waits for the LED side", c.StallAfter)
+	}
+	time.Sleep(50 * time.Millisecond)
+	for _, g := range strings.Split(allStacks(), "\n\n") {
+		if strings.Contains(g, "internal/pkg/midi/device.") {
+			time.Sleep(2 * time.Second)
+			for _, g2 := range strings.Split(allStacks(), "\n\n") {
+				if strings.Contains(g2, "internal/pkg/midi/device.") {
+					return true, violation("C16", "background-activity-left", "server-stalled", "2 s after processing ended a goroutine of the device package is still alive:\n%s", firstLines(g2, 30))
+				}
+			}
+			break
+		}
+	}
+	classify("server stalled while LED traffic was running")
+	return true, nil
+}
+
+func genC16Stall(t *rapid.T) C16StallCase {
+	base := genC17(t)
+	c := C16StallCase{D: base.D, LEDs: base.LEDs, StallAfter: rapid.IntRange(2, 40).Draw(t, "stallAfter"), KeepMs: rapid.IntRange(1500, 3000).Draw(t, "keepMs")}
+	h := newHistState(c.D)
+	for len(h.steps) < 12 && len(h.noteKeys) > 0 {
+		h.toggle(h.noteKeys[rapid.IntRange(0, len(h.noteKeys)-1).Draw(t, "key")])
+	}
+	for _, s := range h.steps {
+		c.Hist = append(c.Hist, LedStep{T: "key", Code: s.Code, Val: s.Val})
+	}
+	return c
+}
+
+func TestC16Stall(t *testing.T) {
+	requireMount(t)
+	ReplayOrRapid(t, NewRun(t, "C16"), checkC16Stall, genC16Stall)
 }
